@@ -289,6 +289,9 @@ func genAtomScenario(t *rapid.T) *SrvScenario {
 			sc.Ops = append(sc.Ops, SrvOp{Kind: "end", Client: rapid.IntRange(0, clients).Draw(t, "client")})
 		}
 	}
+	// request fields the server does not implement: subscribers around one container with different
+	// modes / intervals per subscription (one atomic notification reaches them through several paths)
+	sprinkleDress(t, sc)
 	return sc
 }
 
